@@ -222,8 +222,9 @@ func (f *Fragment) AddSamples(ss []Sample, baseMediaDecodeTime uint64) {
 // baseMediaDecodeTime will be used only for first sample in a trun
 func (f *Fragment) AddSampleToTrack(s Sample, trackID uint32, baseMediaDecodeTime uint64) error {
 	var traf *TrafBox
-	for _, traf = range f.Moof.Trafs {
-		if traf.Tfhd.TrackID == trackID {
+	for _, tr := range f.Moof.Trafs {
+		if tr.Tfhd.TrackID == trackID {
+			traf = tr
 			break
 		}
 	}
